@@ -86,6 +86,40 @@ async fn filter_bbox_build(a: &[String]) -> Result<bool> {
 	Ok(false)
 }
 
+fn svarint_roundtrip(a: &[String]) -> Result<bool> {
+	// args: v — C11: sint64 values survive write_svarint / read_svarint
+	use versatiles_core::io::{ValueReader, ValueReaderSlice, ValueWriter, ValueWriterBlob};
+	let v: i64 = arg(a, 0);
+	let mut w = ValueWriterBlob::new_le();
+	w.write_svarint(v)?;
+	let blob = w.into_blob();
+	let mut r = ValueReaderSlice::new_le(blob.as_slice());
+	let back = r.read_svarint()?;
+	println!("wrote {v}, read {back}");
+	Ok(back != v)
+}
+
+fn pbf_length_prefix(a: &[String]) -> Result<bool> {
+	// args: hex bytes — C19: a length-prefixed read of arbitrary bytes returns Ok/Err; no panic, no abort, no huge allocation
+	use versatiles_core::io::{ValueReader, ValueReaderSlice};
+	let bytes: Vec<u8> = a.iter().map(|h| u8::from_str_radix(h, 16).expect("hex byte")).collect();
+	let mut r = ValueReaderSlice::new_le(&bytes);
+	let res = r.read_pbf_blob();
+	println!("read_pbf_blob -> {}", if res.is_ok() { "Ok" } else { "Err" });
+	let mut r2 = ValueReaderSlice::new_le(&bytes);
+	let res2 = r2.get_pbf_sub_reader().map(|_| ());
+	println!("get_pbf_sub_reader -> {}", if res2.is_ok() { "Ok" } else { "Err" });
+	Ok(false)
+}
+
+fn vector_tile_from_bytes(a: &[String]) -> Result<bool> {
+	// args: hex bytes — C19: decoding arbitrary bytes as a vector tile returns Ok/Err
+	let bytes: Vec<u8> = a.iter().map(|h| u8::from_str_radix(h, 16).expect("hex byte")).collect();
+	let res = versatiles_geometry::vector_tile::VectorTile::from_blob(&Blob::from(bytes));
+	println!("VectorTile::from_blob -> {}", if res.is_ok() { "Ok" } else { "Err" });
+	Ok(false)
+}
+
 fn main() -> Result<()> {
 	let args: Vec<String> = std::env::args().skip(1).collect();
 	if args.is_empty() { eprintln!("usage: verif_replay <case> args…"); std::process::exit(2); }
@@ -94,6 +128,9 @@ fn main() -> Result<()> {
 	let r = std::panic::catch_unwind(|| -> Result<bool> {
 		match args[0].as_str() {
 			"converter_lookup_vs_stream" => rt.block_on(converter_lookup_vs_stream(rest)),
+			"svarint_roundtrip" => svarint_roundtrip(rest),
+			"pbf_length_prefix" => pbf_length_prefix(rest),
+			"vector_tile_from_bytes" => vector_tile_from_bytes(rest),
 			"geo_bbox_nonempty" => geo_bbox_nonempty(rest),
 			"filter_bbox_build" => rt.block_on(filter_bbox_build(rest)),
 			"converter_lookup_total" => rt.block_on(converter_lookup_total(rest)),
